@@ -150,6 +150,33 @@ CLAIMS = {
        "known finding recorded: an RSA1_5 recipient shadows a later recipient of another RSA key.",
   technique="Lean 4 theorem proving + bidirectional differential interop with an independent Lean implementation",
   design="§6 C04"),
+ "C05": dict(
+  text="Machine-checked proof: the grant decision of jose_jwk_prm equals the documented one for every object key, "
+       "operation and 'required' mode (listed in key_ops, or use=sig/enc with the matching operations — the operation "
+       "table is a fact re-proved on the regenerated table —, or no metadata unless required); algorithm mismatch is "
+       "refused at every entry point whatever the two names (C01.verSelect_spec, C03.findAlgSig_spec/keyAlgOk, "
+       "C02.dec_alg_select, Jwe.decJwkSelect, C13.excSelect_mismatch: no ordering hypothesis) and each entry point "
+       "demands the operation its registry row names (table facts). Differential run: prm exhaustively over 2^11 "
+       "key_ops subsets x 6 use values x 10 operations x 2 modes; every ordered pair (key alg, header alg) over all "
+       "registered names of the kind plus names sorting before/between/after, through jws sig/ver, jwe dec_jwk/"
+       "enc_cek/dec_cek, jwk exc, with keys that would otherwise succeed; 12 metadata cases x 10 entry points, against "
+       "a direct oracle of the statement.",
+  note="Trusted: Lean kernel, standard axioms (grind used for one boolean table fact); a non-string 'use' member is "
+       "treated as malformed (refusal accepted).",
+  technique="Lean 4 theorem proving (decision logic stated outright) + exhaustive differential on the finite part",
+  design="§6 C05"),
+ "C13": dict(
+  text="Machine-checked proof: ECDH agreement and the McCallum-Relyea recovery identity s(cG+eG) - e(sG) = c(sG) in "
+       "any commutative group with a scalar action (laws as structure fields, instance exhibited); the three ECMR "
+       "modes are the model's case split; results contain only kty/crv/x/y; refusals for different kty, differing "
+       "declared algorithms (no ordering hypothesis), missing private key (ECDH); deriveKey demanded of both keys "
+       "(table fact). Differential run on all ordered pairs of 8 EC keys x decorations x private/public shapes with "
+       "expected coordinates from pure-Python curve arithmetic, role symmetry, and the blinded recovery executed on "
+       "the implementation with freshly generated client/server/ephemeral keys on three curves.",
+  note="Trusted: Lean kernel, standard axioms; that P-256/384/521 are such groups and OpenSSL implements them is "
+       "trusted and cross-checked numerically (tools/ecmath.py, Jose/Crypto/Ec.lean).",
+  technique="Lean 4 theorem proving (group algebra) + differential correspondence + independent numeric oracle",
+  design="§6 C13"),
 }
 
 NOT_YET = "check not built yet (framework under construction); will be claimed when its Lean theorems and correspondence exist"
